@@ -319,6 +319,9 @@ func (m *MdnsManager) safeQRCodeKeyValue(key, value string) string {
 	if len(value) > 0 {
 		// make sure the value contains no ; chars
 		value = strings.ReplaceAll(value, ";", "")
+		if len(value) == 0 {
+			return ""
+		}
 
 		// make sure the keys are all uppercase
 		key = strings.ToUpper(key)
@@ -365,7 +368,11 @@ func (m *MdnsManager) QRCodeText() string {
 		optionals += m.safeQRCodeKeyValue("CAT", m.deviceCategoriesString(m.deviceCategories))
 	}
 
-	qrcode := fmt.Sprintf("SHIP;SKI:%s;ID:%s;%sENDSHIP;", m.ski, m.identifier, optionals)
+	// the ; char separates the fields, it must not be part of any value
+	ski := strings.ReplaceAll(m.ski, ";", "")
+	identifier := strings.ReplaceAll(m.identifier, ";", "")
+
+	qrcode := fmt.Sprintf("SHIP;SKI:%s;ID:%s;%sENDSHIP;", ski, identifier, optionals)
 
 	return qrcode
 }
